@@ -29,6 +29,7 @@ MARKS = {
     12: ("local_names_match", "if clazz in self.unsupported:"),
     13: ("local_names_match", "self.unsupported.add(clazz)"),
     14: ("get_field_diff", "meta = self.cache[clazz]"),
+    15: ("build_recursive", "if clazz not in self.cache:"),
 }
 # lines that must NOT come back: the in-place rebuild fixed by /repo ece294b
 FORBIDDEN = [("build_xsi_cache", "self.xsi_cache.clear()", "cold-index-race", "ece294b"),
@@ -36,7 +37,7 @@ FORBIDDEN = [("build_xsi_cache", "self.xsi_cache.clear()", "cold-index-race", "e
              # the in-place pruning fixed by /repo c28ded8
              ("local_names_match", "self.xsi_cache[target_qname].remove(clazz)", "concurrent-prune-value-error", "c28ded8")]
 
-SUPPORTED_CALLS = ("build", "fetch", "find_type", "find_types", "find_subclass", "find_type_by_fields", "local_names_match")
+SUPPORTED_CALLS = ("build", "fetch", "find_type", "find_types", "find_subclass", "find_type_by_fields", "local_names_match", "build_recursive")
 
 
 def supported(op):
@@ -109,6 +110,9 @@ def run(ck: Check):
         # the first unbuildable class of the index before either records it
         dx = by_tag["dec-auto:x"]
         runs.append({"warm": [], "threads": [dx, dx], "schedule": [0] * 5 + [1] * 5 + [0, 1] * 4})
+        kinds["witness"] += 1
+        # build_recursive stops at a class another thread has cached (C19_build_recursive_concurrent_refuted)
+        runs.append({"warm": [], "threads": [by_tag["build_recursive:Dep"], by_tag["ser:Dep"]], "schedule": [1, 1, 1]})
         kinds["witness"] += 1
         # the concurrent form of the cache-key defect
         runs.append({"warm": [ft], "threads": [by_tag["ser:PA"], by_tag["ser:PB"]], "schedule": [0, 0, 0, 0, 1, 1, 1, 1, 1, 0]})
@@ -233,7 +237,10 @@ def run(ck: Check):
             ck.failure("concurrent-difference-unexplained", "a thread's result differs from its solo run and the model does not "
                        "reproduce it: " + what, replay(i))
             continue
-        if s & 64:
+        if s & 128:
+            ck.failure("build-recursive-skips-cached-concurrent", "build_recursive stopped at a class another thread had "
+                       "cached and missed the unbuildable class below it: " + what, replay(i))
+        elif s & 64:
             stats["ns_concurrent"] += 1
             ck.failure("ns-cache-key-concurrent", "two threads requested one class under different parent namespaces: " + what,
                        replay(i))
